@@ -7,6 +7,7 @@ import (
 	"github.com/go-git/go-billy/v6"
 
 	"github.com/go-git/go-git/v6/plumbing"
+	"github.com/go-git/go-git/v6/storage"
 	"github.com/go-git/go-git/v6/utils/ioutil"
 )
 
@@ -23,6 +24,18 @@ func (d *DotGit) setRefRwfs(fileName, content string, old *plumbing.Reference) (
 	mode := os.O_RDWR | os.O_CREATE
 	if old == nil {
 		mode |= os.O_TRUNC
+	} else if _, statErr := d.fs.Stat(fileName); os.IsNotExist(statErr) {
+		// There is no loose file: the reference is packed or does not
+		// exist. Check it before O_CREATE, so that a failing check does
+		// not leave an empty loose reference file behind.
+		ref, err := d.packedRef(old.Name())
+		if err != nil {
+			return err
+		}
+
+		if ref.Hash() != old.Hash() {
+			return storage.ErrReferenceHasChanged
+		}
 	}
 
 	f, err := d.fs.OpenFile(fileName, mode, 0o666)
